@@ -190,7 +190,7 @@ def ibft(
     queue = collections.deque([start])
     visited.add(start)
 
-    if (ff_result and ff_result(start)) or (not ff_result):
+    if ff_result is None or ff_result(start):
         yield start
 
     while queue:
@@ -210,7 +210,7 @@ def ibft(
                 visited.add(v)
                 queue.append(v)
 
-                if (ff_result and ff_result(v)) or (not ff_result):
+                if ff_result is None or ff_result(v):
                     yield v
 
 
